@@ -78,11 +78,19 @@ func (g *gen) c12Prog(sender int, nameIdx int) simrt.Op {
 		case 2: // keys without the executor's local prefix
 			k = r.Pick("LODB-"+real+"x-a0", "LODB-"+NameFR+"-a0", "LODB-"+real+"-", "LODB-"+real, "LODX-"+real+"-a0", "LODB_"+real+"-a0", "lodb-"+real+"-a0", "TX:"+real, "LODB-"+real[:len(real)-1]+"-a0", "")
 		}
-		if r.Chance(1, 4) {
+		switch {
+		case r.Chance(1, 4):
 			l = append(l, simrt.Op{K: "l:lemit", S: []string{hx(k), g.val(n, 100+i)}})
-		} else {
+		case real == NameVM && r.Chance(1, 6): // written through the local-data handle, not reported (only checked for executors whose local phase runs with the transaction)
+			l = append(l, simrt.Op{K: "l:lsetq", S: []string{hx(k), g.val(n, 100+i)}})
+		default:
 			l = append(l, simrt.Op{K: "l:lset", S: []string{hx(k), g.val(n, 100+i)}})
 		}
+	}
+	if len(l) == 0 && real == NameVM && r.Chance(1, 5) {
+		// the only thing the local phase does: an unreported write (own or foreign area)
+		k := r.Pick("LODB-"+real+"-a0", "LODB-"+NameFR+"-a0", "LODB-coins-x", "TX:"+real)
+		l = append(l, simrt.Op{K: "l:lsetq", S: []string{hx(k), g.val(n, 190)}})
 	}
 	op.Sub = append(x, l...)
 	return op
